@@ -7,8 +7,9 @@ C13 — models of the size-prefixed ammo framings (uripost, raw), of the uri for
 (`readSized`, commit 8bca4e3: negative ⇒ error, otherwise read at most what is there).
 The theorems in Props/C13.lean are about `fixed = true`; the defect of `fixed = false` is refuted there.
 
-The last line of a file may lack its `\n`: the uripost decoder decodes it (`ReadString` returns it together
-with io.EOF, commit df9a0d4), the raw decoder drops it (`Run.rest` keeps what was dropped).
+The last line of a file may lack its `\n`: both size-prefixed decoders decode it (`ReadString` returns it together
+with io.EOF: uripost since commit df9a0d4, raw since dbbf16d; before that the raw decoder dropped it: `rawStepDrop`,
+where `Run.rest` keeps what was dropped).
 
 `url.Parse` is a library: it is a parameter `urlOk` of the model (all theorems hold for every oracle).
 One pass over the file (`passes = 1`): the end of data is `End.ok`.
@@ -86,11 +87,11 @@ def endOfRes {α} : Res α → End
   | .panic _ => .panic
   | .fatal _ => .fatal
 
-/-- `reader.ReadString('\n')` as the raw decoder uses it: the line (without its terminator) and what follows;
+/-- `reader.ReadString('\n')` as the raw decoder used it before dbbf16d: the line (without its terminator) and what follows;
 `none` = io.EOF (data returned together with EOF - an unterminated last line - is dropped) -/
 def readLine (s : Bytes) : Option (Bytes × Bytes) := cut s 10
 
-/-- `reader.ReadString('\n')` as `uripostDecoder.readBlock` uses it: an unterminated last line is a line
+/-- `reader.ReadString('\n')` as `uripostDecoder.readBlock` and `rawDecoder.Scan` use it: an unterminated last line is a line
 (`err == io.EOF && len(data) > 0` is not the end); `none` = io.EOF with no data -/
 def readLineU (s : Bytes) : Option (Bytes × Bytes) :=
   match cut s 10 with
@@ -198,14 +199,24 @@ def rawLine (fixed : Bool) (line rest : Bytes) : Step :=
         | r => .fail (endOfRes r)
     | r => .fail (endOfRes r)
 
-/-- one iteration of `rawDecoder.Scan` -/
+/-- one iteration of `rawDecoder.Scan` (since dbbf16d: `err == io.EOF && len(data) == 0` is the end of the file, a last
+line without newline is a line; which of the two the source has is regenerated: `Gen.C13Src.rawLastLine`) -/
 def rawStep (fixed : Bool) (s : Bytes) : Step :=
-  match readLine s with
+  match readLineU s with
   | none => .eof
   | some (line, rest) => rawLine fixed line rest
 
 def rawRun (fixed : Bool) (s : Bytes) : Run :=
   runSteps (rawStep fixed) (s.length + 1) s
+
+/-- the raw decoder before dbbf16d: a last line without newline is dropped with everything it announces -/
+def rawStepDrop (fixed : Bool) (s : Bytes) : Step :=
+  match readLine s with
+  | none => .eof
+  | some (line, rest) => rawLine fixed line rest
+
+def rawRunDrop (fixed : Bool) (s : Bytes) : Run :=
+  runSteps (rawStepDrop fixed) (s.length + 1) s
 
 /-! ### uri (line oriented, `bufio.Scanner`) -/
 
